@@ -75,12 +75,37 @@ impl EventParser {
                 self.extract_type_name(&type_ref.elem)
             }
             Type::Path(type_path) => {
-                // Get the last segment of the path (the actual type name)
+                // Get the last segment of the path (the actual type name), keeping its
+                // generic arguments: `Vec<User>` must not degrade to `Vec`
                 if let Some(segment) = type_path.path.segments.last() {
-                    segment.ident.to_string()
+                    let ident = segment.ident.to_string();
+                    if let syn::PathArguments::AngleBracketed(arguments) = &segment.arguments {
+                        let generic_args: Vec<String> = arguments
+                            .args
+                            .iter()
+                            .filter_map(|arg| match arg {
+                                syn::GenericArgument::Type(inner) => {
+                                    Some(self.extract_type_name(inner))
+                                }
+                                _ => None,
+                            })
+                            .collect();
+                        if !generic_args.is_empty() {
+                            return format!("{}<{}>", ident, generic_args.join(", "));
+                        }
+                    }
+                    ident
                 } else {
                     "unknown".to_string()
                 }
+            }
+            Type::Tuple(type_tuple) => {
+                let elements: Vec<String> = type_tuple
+                    .elems
+                    .iter()
+                    .map(|elem| self.extract_type_name(elem))
+                    .collect();
+                format!("({})", elements.join(", "))
             }
             _ => "unknown".to_string(),
         }
@@ -475,8 +500,8 @@ impl EventParser {
                 if tuple.elems.is_empty() {
                     return "()".to_string();
                 }
-                // For now, just mark as tuple
-                "tuple".to_string()
+                // The element types are not evident from the expression
+                "unknown".to_string()
             }
             // Literal values
             Expr::Lit(lit) => match &lit.lit {
